@@ -201,13 +201,15 @@ fn check(id: &str, tier: Tier, seed: u64) -> i32 {
     };
     let t0 = Instant::now();
     let nshards = (prop.shards)(tier).max(1);
+    // Testing aid: VERIF_ONLY_FUZZ=1 skips the generated-case shards of a thorough run.
+    let spawn_shards = if std::env::var("VERIF_ONLY_FUZZ").is_ok() && tier == Tier::Thorough { 0 } else { nshards };
     let exe = std::env::current_exe().expect("own path");
     let tmp = Path::new(VERIF_ROOT).join("harness/target/vp-tmp");
     let _ = std::fs::create_dir_all(&tmp);
     let pid = std::process::id();
 
     let mut children = vec![];
-    for shard in 0..nshards {
+    for shard in 0..spawn_shards {
         let out = tmp.join(format!("{id}-{pid}-{shard}.json"));
         let _ = std::fs::remove_file(&out);
         let child = Command::new(&exe)
@@ -319,6 +321,10 @@ fn check(id: &str, tier: Tier, seed: u64) -> i32 {
     }
     infra.extend(merged.infra_errors.clone());
 
+    if tier == Tier::Thorough && std::env::var("VERIF_NO_FUZZ").is_err() {
+        fuzz_campaigns(id, seed, &mut merged, &mut infra);
+    }
+
     let known = engine::load_known();
     let mut violations = 0;
     for k in known.iter().filter(|k| k.property == id) {
@@ -394,7 +400,136 @@ fn check(id: &str, tier: Tier, seed: u64) -> i32 {
     0
 }
 
+/// Thorough tier: coverage-guided campaigns (libFuzzer + AddressSanitizer) with the
+/// same oracles inside the target, restricted to this property.
+fn fuzz_campaigns(id: &str, seed: u64, merged: &mut Report, infra: &mut Vec<String>) {
+    let targets = vp_harness::fuzzing::targets_for(id);
+    if targets.is_empty() {
+        return;
+    }
+    let fuzz_dir = Path::new(VERIF_ROOT).join("fuzz");
+    let build = Command::new("cargo")
+        .args(["+nightly", "fuzz", "build", "--fuzz-dir"])
+        .arg(&fuzz_dir)
+        .env("CARGO_NET_OFFLINE", "true")
+        .stdin(Stdio::null())
+        .stdout(Stdio::null())
+        .stderr(Stdio::null())
+        .status();
+    if !matches!(build, Ok(st) if st.success()) {
+        infra.push("fuzz targets do not build (cargo +nightly fuzz build)".to_string());
+        return;
+    }
+    let exe = std::env::current_exe().expect("own path");
+    for (target, runs, max_len) in targets {
+        let work = fuzz_dir.join("work").join(format!("{id}-{target}-{}", std::process::id()));
+        let corpus = work.join("corpus");
+        let artifacts = work.join("artifacts");
+        let _ = std::fs::remove_dir_all(&work);
+        let _ = std::fs::create_dir_all(&corpus);
+        let _ = std::fs::create_dir_all(&artifacts);
+        let _ = Command::new(&exe).args(["fuzz-seeds", target]).arg(&corpus).status();
+        let jobs = 16;
+        let t0 = Instant::now();
+        let status = Command::new("cargo")
+            .args(["+nightly", "fuzz", "run", "--fuzz-dir"])
+            .arg(&fuzz_dir)
+            .arg(target)
+            .arg(&corpus)
+            .arg("--")
+            .arg(format!("-runs={runs}"))
+            .arg(format!("-seed={seed}"))
+            .arg("-len_control=0")
+            .arg(format!("-max_len={max_len}"))
+            .arg(format!("-jobs={jobs}"))
+            .arg(format!("-workers={jobs}"))
+            .arg("-rss_limit_mb=4096")
+            .arg(format!("-artifact_prefix={}/", artifacts.display()))
+            .env("CARGO_NET_OFFLINE", "true")
+            .env("VERIF_FUZZ_PROPERTY", id)
+            .current_dir(&work)
+            .stdin(Stdio::null())
+            .stdout(Stdio::null())
+            .stderr(Stdio::null())
+            .status();
+        let secs = t0.elapsed().as_secs_f64();
+        let corpus_size = std::fs::read_dir(&corpus).map(|d| d.count()).unwrap_or(0);
+        merged.sub_add(&format!("fuzz:{target}"), "runs", runs * jobs);
+        merged.sub_set(&format!("fuzz:{target}"), "jobs", json!(jobs));
+        merged.sub_set(&format!("fuzz:{target}"), "corpus_files_at_end", json!(corpus_size));
+        merged.sub_set(&format!("fuzz:{target}"), "wall_s", json!(secs));
+        merged.sub_set(&format!("fuzz:{target}"), "sanitizer", json!("address"));
+        merged.evaluations += runs * jobs;
+        // Any artifact?  Confirm it with the same oracle in the ordinary build.
+        let mut crashes: Vec<std::path::PathBuf> = std::fs::read_dir(&artifacts).map(|d| d.filter_map(|e| e.ok().map(|e| e.path())).collect()).unwrap_or_default();
+        crashes.sort();
+        for (k, art) in crashes.iter().enumerate() {
+            let Ok(data) = std::fs::read(art) else { continue };
+            if art.file_name().map(|n| n.to_string_lossy().starts_with("oom-") || n.to_string_lossy().starts_with("timeout-") || n.to_string_lossy().starts_with("slow-unit-")).unwrap_or(false) {
+                infra.push(format!("fuzz {target}: libFuzzer reported {} (resource limit, not a violation)", art.display()));
+                continue;
+            }
+            let dest = engine::replay_dir().join(format!("{id}-fuzz-{target}-{seed}-{k}.bin"));
+            let _ = std::fs::create_dir_all(engine::replay_dir());
+            let _ = std::fs::write(&dest, &data);
+            let verdict = Command::new(&exe).args(["fuzz-replay", target]).arg(&dest).env("VERIF_FUZZ_PROPERTY", id).output();
+            let (sig, msg) = match &verdict {
+                Ok(o) if o.status.code() == Some(1) => {
+                    let text = String::from_utf8_lossy(&o.stdout).to_string();
+                    let sig = text.lines().find_map(|l| l.trim().strip_prefix("signature: ")).unwrap_or("fuzz:oracle").to_string();
+                    (sig, text.lines().last().unwrap_or("").trim().to_string())
+                }
+                Ok(o) if o.status.code() == Some(0) => {
+                    // Crashed under the sanitizer but passes in the ordinary build: a memory error only ASan sees.
+                    ("asan:memory-error".to_string(), format!("libFuzzer + AddressSanitizer aborted on this input (target {target}) although the oracles pass in the ordinary build"))
+                }
+                Ok(o) => (format!("crash:{:?}", o.status), format!("replaying the artifact ends with {:?}", o.status)),
+                Err(e) => ("fuzz:replay-failed".to_string(), e.to_string()),
+            };
+            if !merged.found.iter().any(|f| f.sig == sig) {
+                merged.found.push(engine::Found {
+                    sig,
+                    msg,
+                    replay: dest.display().to_string(),
+                    known: false,
+                });
+            } else {
+                // Several jobs usually hit the same defect: keep one artifact per signature.
+                let _ = std::fs::remove_file(&dest);
+            }
+        }
+        if let Ok(st) = &status {
+            if !st.success() && crashes.is_empty() {
+                infra.push(format!("fuzz {target}: campaign ended with {st} but left no artifact"));
+            }
+        }
+        let _ = std::fs::remove_dir_all(&work);
+    }
+}
+
 fn replay(id: &str, file: &str) -> i32 {
+    // libFuzzer artifacts are raw bytes named <ID>-fuzz-<target>-...; everything else is a JSON replay file.
+    if let Some(name) = Path::new(file).file_name().map(|n| n.to_string_lossy().to_string()) {
+        if let Some(rest) = name.strip_prefix(&format!("{id}-fuzz-")) {
+            if let Some(target) = vp_harness::fuzzing::TARGETS.iter().find(|t| rest.starts_with(&format!("{t}-"))) {
+                let exe = std::env::current_exe().expect("own path");
+                let st = Command::new(exe).args(["fuzz-replay", target, file]).env("VERIF_FUZZ_PROPERTY", id).status();
+                use std::os::unix::process::ExitStatusExt;
+                return match st {
+                    Ok(st) => match (st.code(), st.signal()) {
+                        (Some(c), _) => c,
+                        (None, Some(sig)) => {
+                            println!("VIOLATION property={id} replay={file}");
+                            println!("  signature: crash:signal-{sig}");
+                            1
+                        }
+                        _ => 2,
+                    },
+                    Err(_) => 2,
+                };
+            }
+        }
+    }
     // The case runs in a child process, so that one which kills the process
     // (abort, segfault) is still reported as a violation.
     let exe = std::env::current_exe().expect("own path");
